@@ -18,8 +18,14 @@ RULE = ("(purity) seeded random documents x paths of every segment kind (keys, i
         "vanishes although no EQUAL pair is among the subtracted results gets its own signature.  (creation) documents x straight-line key/index paths made of an "
         "existing prefix of every length (through integer keys too, addressed by their digits) followed by a missing tail of 1-4 "
         "segments (also fully existing paths; missing keys with every character that needs a backslash escape - separators, "
-        "brackets, quotes, &, *, space, the backslash ... - in dot and slash notation, fenced by 'the text parses to the intended "
-        "segments'; missing negative / zero / positive digit keys), through "
+        "brackets, quotes, &, *, space, the backslash ... - in dot and slash notation, written with backslash escapes or - a third "
+        "of the cases - INSIDE QUOTATION MARKS ('x*', \"a.b\": only the quotation mark and the backslash are escaped there; with "
+        "qplain every key is quoted), fenced by 'the Lean PARSER MODEL reads the text as exactly the intended KEY / INDEX "
+        "segments' - not by the real parser, so an implementation that reads a quoted key as a wildcard search is judged, not "
+        "skipped; missing negative / zero / positive digit keys; 12 % of the supplied values are TEXT spelled like a Python "
+        "literal - simple quoted string literals ('abc', \"two words\", '5', ''), which must be stored with their quotation marks, "
+        "and integer look-alikes (0x1F, -0o17, 0b101, (1), - 5: an int for ast.literal_eval, a ValueError for int()), which must "
+        "be stored as that text), through "
         "get_nodes(mustexist=False, default_value=v) and set_value(v, format): the whole document afterwards must equal the Lean model "
         "createPath; directly on the real code: the path then resolves to exactly one node holding the value and every pre-existing "
         "node that is not an ancestor of the created spine is unchanged.  Tails also start with a NEGATIVE index below the list (idx < -len, written [n] or as a bare "
